@@ -11,6 +11,7 @@ import Verif.Props.C20
 import Verif.Model.Loop
 import Verif.Inv.TokInv
 import Verif.Inv.OwnInv
+import Verif.Inv.DeadTok
 
 namespace Verif.Props.C06
 open Verif.Token Verif.Slots Verif.Loop
@@ -69,5 +70,30 @@ theorem never_inserted_twice (ops : List Verif.Loop.Op) (hab : (Verif.Loop.run o
     ∀ k, Verif.Loop.inSlot (Verif.Loop.run ops) k = true →
       (Verif.Loop.alookup (Verif.Loop.run ops).srcs k).map (·.owned) = some false :=
   ⟨Verif.Inv.OwnInv.never_inserted_twice ops hab, fun k h => Verif.Inv.OwnInv.occupant_not_owned ops hab k h⟩
+
+/-- **For every history and every continuation of it**: a source that was handed a token and has left its slot (removed
+    from outside, removed by its own callback, by a `Remove` post action, by a failed …) never sits in a slot again, and
+    its token resolves to nothing for the rest of the history — whatever is inserted into the vacated slot meanwhile —
+    unless a generation wraps (`aliased`: finding F12, then `C06_wrap_false` applies). -/
+theorem dead_token_stays_dead (ops ops' : List Verif.Loop.Op)
+    (hab : (Verif.Loop.run (ops ++ ops')).aborted = false) (hna : (Verif.Loop.run (ops ++ ops')).aliased = false)
+    (k : Nat) (tok : Verif.Token.Tok)
+    (hk : Verif.Loop.alookup (Verif.Loop.run ops).tokens k = some tok)
+    (hout : Verif.Loop.inSlot (Verif.Loop.run ops) k = false) :
+    Verif.Loop.slotDisp (Verif.Loop.run (ops ++ ops')) tok = none :=
+  Verif.Inv.DeadTok.dead_token_stays_dead ops ops' hab hna k tok hk hout
+
+/-- non-vacuity: source 1 is removed; its slot is reused twice afterwards, sources come and go, the loop dispatches -/
+def removedThenReused : List Verif.Loop.Op × List Verif.Loop.Op :=
+  ([.c (.newPing 1), .c (.insert 1), .c (.remove 1)],
+   [.c (.newPing 2), .c (.insert 2), .c (.newPing 3), .c (.insert 3), .c (.remove 2), .c (.newTimer 4 (some 3)),
+    .c (.insert 4), .c (.ping 3), .dispatch])
+
+example :
+    (Verif.Loop.alookup (Verif.Loop.run removedThenReused.1).tokens 1).isSome = true ∧
+    Verif.Loop.inSlot (Verif.Loop.run removedThenReused.1) 1 = false ∧
+    (Verif.Loop.run (removedThenReused.1 ++ removedThenReused.2)).aborted = false ∧
+    (Verif.Loop.run (removedThenReused.1 ++ removedThenReused.2)).aliased = false ∧
+    Verif.Slots.occupied (Verif.Loop.run (removedThenReused.1 ++ removedThenReused.2)).slots = 2 := by decide +kernel
 
 end Verif.Props.C06
